@@ -142,16 +142,19 @@ Definition ack_bit (s : state) (b : bool) : state * N :=
     end.
 
 (* received( pdu ) with pdu at offset off of the receive ring, header h, payload body.
-   result: state, response, #increment_receive_packet_counter, #increment_transmit_packet_counter *)
+   result: state, response, #increment_receive_packet_counter, #increment_transmit_packet_counter.
+   `accept` is the part after acknowledge( header & nesn_flag ): "resent PDU?" ... *)
+Definition accept (c : cfg) (s1 : state) (off h : N) (body : list N) : state * N :=
+  if Bool.eqb (has h sn_flag) (nesn s1) then
+    let s2 := w_nesn s1 (negb (nesn s1)) in
+    if negb (N.land h 65280 =? 0) then
+      ((if negb (N.land h 3 =? 0) then w_rxr s2 (push (c_o c) (rxr s2) (mkE off h body)) else s2), 1)
+    else (s2, 0)
+  else (s1, 0).
+
 Definition received (c : cfg) (s : state) (off h : N) (body : list N) : state * resp * N * N :=
   let '(s1, tc) := ack_bit s (has h nesn_flag) in
-  let '(s2, rc) :=
-    if Bool.eqb (has h sn_flag) (nesn s1) then
-      let s2 := w_nesn s1 (negb (nesn s1)) in
-      if negb (N.land h 65280 =? 0) then
-        ((if negb (N.land h 3 =? 0) then w_rxr s2 (push (c_o c) (rxr s2) (mkE off h body)) else s2), 1)
-      else (s2, 0)
-    else (s1, 0) in
+  let '(s2, rc) := accept c s1 off h body in
   let '(s3, r) := next_transmit c s2 in
   (s3, r, rc, tc).
 
